@@ -314,7 +314,7 @@ def _repo_state(repo):
 
 
 def save_replay(here, pid, tag, case, msg, seed, shrunk, origin):
-    d = os.path.join(here, 'replays', pid)
+    d = os.path.join(os.environ.get('VERIF_REPLAY_DIR') or os.path.join(here, 'replays'), pid)
     os.makedirs(d, exist_ok=True)
     name = '%s-%s.json' % (''.join(c if c.isalnum() or c in '-_' else '_' for c in tag)[:60],
                            hashlib.sha1(canon(case).encode('utf-8', 'surrogatepass')).hexdigest()[:10])
@@ -563,8 +563,9 @@ def _run(mod, pid, tier, seed, procs, scale, here, repo, run_tmp, t_start):
     ev = dict(property_id=pid, tier=tier, seed=int(seed), level=mod.LEVEL, coverage=coverage,
               assumptions=list(mod.ASSUMPTIONS), wall_s=round(time.time() - t_start, 2),
               violations=len(violations))
-    os.makedirs(os.path.join(here, 'evidence'), exist_ok=True)
-    with open(os.path.join(here, 'evidence', pid + '.json'), 'w') as f:
+    evdir = os.environ.get('VERIF_EVIDENCE_DIR') or os.path.join(here, 'evidence')   # redirected by tools/ only
+    os.makedirs(evdir, exist_ok=True)
+    with open(os.path.join(evdir, pid + '.json'), 'w') as f:
         json.dump(ev, f, indent=1, sort_keys=True, default=_json_default)
 
     print('%s tier=%s seed=%d evaluations=%d distinct_nontrivial=%d wall=%.1fs skipped_budget=%d' % (
